@@ -2,6 +2,7 @@ package bus
 
 import (
 	"fmt"
+	"sync"
 
 	"github.com/lugu/qiloop/bus/net"
 	"github.com/lugu/qiloop/type/object"
@@ -13,6 +14,18 @@ type Cache struct {
 	Names    map[string]uint32
 	Services map[uint32]object.MetaObject
 	Endpoint net.EndPoint
+
+	// one client for the connection: the proxies share its message
+	// id counter so that concurrent calls never carry the same id.
+	client     Client
+	clientOnce sync.Once
+}
+
+func (s *Cache) getClient() Client {
+	s.clientOnce.Do(func() {
+		s.client = NewClient(NewChannel(s.Endpoint, DefaultCap()))
+	})
+	return s.client
 }
 
 // Proxy returns a proxy object to the desired service.
@@ -23,9 +36,7 @@ func (s *Cache) Proxy(name string, objectID uint32) (Proxy, error) {
 	}
 	meta := s.Services[serviceID]
 
-	channel := NewChannel(s.Endpoint, DefaultCap())
-	client := NewClient(channel)
-	return NewProxy(client, meta, serviceID, objectID), nil
+	return NewProxy(s.getClient(), meta, serviceID, objectID), nil
 }
 
 // Object creates an object from a reference.
@@ -51,9 +62,7 @@ func (s *Cache) AddService(name string, serviceID uint32,
 // the cache.
 func (s *Cache) Lookup(name string, serviceID uint32) error {
 	objectID := uint32(1)
-	channel := NewChannel(s.Endpoint, DefaultCap())
-	meta, err := GetMetaObject(NewClient(channel),
-		serviceID, objectID)
+	meta, err := GetMetaObject(s.getClient(), serviceID, objectID)
 	if err != nil {
 		return fmt.Errorf("Can not reach metaObject: %s", err)
 	}
